@@ -129,6 +129,7 @@ theorem jsonString_body_bytes (s : Bytes) : ∀ b ∈ escBody s, 32 ≤ b ∧ b 
       · intro h; subst h; exact absurd h128 (by decide)
     · exact ht y hy
 
+set_option maxRecDepth 4096 in
 /-- **The output is valid UTF-8 whatever the input bytes are** (an invalid byte is written as the
     ASCII escape `�`). -/
 theorem jsonString_valid_utf8 (s : Bytes) : ValidUtf8 (jsonString s) := by
